@@ -516,6 +516,14 @@ ALWAYS_INLINE = {
     "whirlpool": [
         "manager::swap_manager::calculate_protocol_fee",
         "manager::swap_manager::calculate_update",
+        "manager::swap_manager::get_next_sqrt_prices",
+        "manager::tick_array_manager::increase_tick_array_size",
+        "manager::tick_array_manager::decrease_tick_array_size",
+        "pinocchio::ported::manager_tick_array_manager::pino_increase_tick_array_size",
+        "pinocchio::ported::manager_tick_array_manager::pino_decrease_tick_array_size",
+        "pinocchio::utils::account_load::check_owner_program",
+        "util::swap_utils::perform_swap",
+        "util::v2::swap_utils::perform_swap_v2",
     ],
 }
 
@@ -533,26 +541,41 @@ def inline_new_functions(facts, crate):
         if not new:
             break
         progressed = False
+        # one pass: direct call sites per callee, and every function item used as a value
+        sites_of = {}
+        value_refs = set()
+
+        def walk(x):
+            if isinstance(x, dict):
+                k = x.get("k")
+                if isinstance(k, dict) and "fn" in k:
+                    value_refs.add(k["fn"])
+                if "fn" in x and isinstance(x["fn"], str):
+                    value_refs.add(x["fn"])
+                for v in x.values():
+                    if isinstance(v, (dict, list)):
+                        walk(v)
+            elif isinstance(x, list):
+                for v in x:
+                    if isinstance(v, (dict, list)):
+                        walk(v)
+        want = {g.path for g in new}
+        for f in facts.fn_list:
+            for bi, bb in enumerate(f.blocks):
+                tt = bb["t"]
+                if tt["k"] == "call":
+                    p_ = tt["f"].get("p")
+                    if p_ in want and f.kind != "const":
+                        sites_of.setdefault(p_, []).append((f, bi))
+                    walk(tt["a"])
+                    if "ind" in tt["f"]:
+                        walk(tt["f"]["ind"])
+                for st in bb["s"]:
+                    if st["k"] == "=":
+                        walk(st["rv"])
         for g in new:
-            # call sites
-            sites = []
-            other_use = False
-            for f in facts.fn_list:
-                if f.kind == "const":
-                    if g.path in json.dumps(f.rec["blocks"]):
-                        other_use = True
-                    continue
-                for bi, bb in enumerate(f.blocks):
-                    tt = bb["t"]
-                    if tt["k"] == "call" and tt["f"].get("p") == g.path:
-                        sites.append((f, bi))
-                    elif tt["k"] == "call":
-                        for a in tt["a"]:
-                            if isinstance(a.get("k"), dict) and a["k"].get("fn") == g.path:
-                                other_use = True
-                    for st in bb["s"]:
-                        if st["k"] == "=" and '"fn": "%s"' % g.path in json.dumps(st["rv"]):
-                            other_use = True
+            sites = sites_of.get(g.path, [])
+            other_use = g.path in value_refs
             recursive = any(f is g for f, _ in sites)
             calls_new = any((bb["t"]["k"] == "call" and bb["t"]["f"].get("p") in {h.path for h in new if h is not g}) for bb in g.blocks)
             if other_use or recursive or not sites:
